@@ -15,6 +15,8 @@ Definition Y : obs := RAdd true.      (* Add accepted *)
 Definition Rf : obs := RAdd false.   (* Add refused *)
 Definition E : obs := RNext None.     (* Next on an empty buffer *)
 Definition Z0 : obs := RReset.
+Definition Rc : op := ORecycle.
+Definition Z1 : obs := RRecycle.
 Definition P : obs := RPanic.
 
 Record case := mk_case {
@@ -22,8 +24,8 @@ Record case := mk_case {
   c_limit : N;                             (* MaxBufferSize *)
   c_ops : list op;
   c_obs : list obs;                        (* what the real LocalBuffer returned, call by call *)
-  c_final : option (string * N * N * N)    (* after the last call: hex(l.data) without its trailing zero bytes, len(l.data),
-                                              writeBufPos, readBufPos; None after a panic *)
+  c_final : option (string * N * N * N * N) (* after the last call: hex(l.data[:cap]) without its trailing zero bytes,
+                                              cap(l.data), len(l.data), writeBufPos, readBufPos; None after a panic *)
 }.
 
 Definition obs_eqb (x y : obs) : bool :=
@@ -32,6 +34,7 @@ Definition obs_eqb (x y : obs) : bool :=
   | RNext None, RNext None => true
   | RNext (Some a), RNext (Some b) => item_eqb a b
   | RReset, RReset => true
+  | RRecycle, RRecycle => true
   | RPanic, RPanic => true
   | _, _ => false
   end.
@@ -41,10 +44,10 @@ Definition corr (c : case) : bool :=
   let (tr, f) := run (buf_new (N.to_nat (c_init c)) (c_limit c)) (c_ops c) in
   list_eqb obs_eqb tr (c_obs c)
   && match f, c_final c with
-     | Some b, Some (h, len, w, r) =>
+     | Some b, Some (h, cp, len, w, r) =>
        let d := unhex h in
-       list_eqb N.eqb (data b) (d ++ repeat 0%N (N.to_nat len - length d))
-       && (N.of_nat (length (data b)) =? len)%N
+       list_eqb N.eqb (data b) (d ++ repeat 0%N (N.to_nat cp - length d))
+       && (N.of_nat (length (data b)) =? cp)%N && (N.of_nat (blen b) =? len)%N
        && (N.of_nat (wpos b) =? w)%N && (N.of_nat (rpos b) =? r)%N
      | None, None => true
      | _, _ => false
